@@ -125,7 +125,7 @@ def prepare_workers(prop, n, first):
         if seed.exists():
             subprocess.run(["cp", "-a", str(seed), str(dirs[0])], check=True)
     # build (or refresh) worker 0 against the *current* /repo sources
-    rc, out, to = sh("cargo kani %s --target-dir %s --only-codegen --harness %s" % (features_arg(prop), dirs[0], first),
+    rc, out, to = sh("cargo kani %s -Z stubbing --target-dir %s --only-codegen --harness %s" % (features_arg(prop), dirs[0], first),
                      timeout=1800)
     if rc != 0:
         log(out[-6000:])
@@ -193,13 +193,13 @@ def parse_playback_tests(out):
 
 
 def kani_cmd(h, prop, tdir, playback=False):
-    cmd = "cargo kani %s --target-dir %s --harness %s" % (features_arg(prop), tdir, h["name"])
-    if "stub" in h.get("flags", "") or h.get("stubs"):
-        cmd += " -Z stubbing"
+    cmd = "cargo kani %s --target-dir %s --harness %s -Z stubbing" % (features_arg(prop), tdir, h["name"])
     fl = h.get("flags", "")
-    for f in fl.split():
-        if f != "stub":
-            cmd += " " + f
+    extra = [f for f in fl.split() if f != "stub"]
+    if extra or h.get("cbmc"):
+        cmd += " -Z unstable-options"
+    for f in extra:
+        cmd += " " + f
     if h.get("cbmc"):
         cmd += " --cbmc-args " + h["cbmc"]
     if playback:
@@ -212,6 +212,9 @@ def run_harness(h, prop, tdir, scale=1.0):
     timeout = float(h["t"]) * scale
     cmd = kani_cmd(h, prop, tdir)
     rc, out, timed_out = sh(cmd, timeout=timeout, mem_gb=float(h["mem"]))
+    logd = VERIF / "logs" / prop
+    logd.mkdir(parents=True, exist_ok=True)
+    (logd / (h["name"] + ".log")).write_text(out)
     r = parse_kani(out)
     r.update({"name": h["name"], "cmd": cmd, "wall": time.time() - t0, "rc": rc, "timed_out": timed_out})
     real = [f for f in r["failed"] if not BENIGN.match(f["desc"])]
@@ -255,7 +258,10 @@ def mods_for_playback():
 
 def write_playback(prop, tests):
     src = ["// generated by chk.py: concrete playback tests (counterexamples found by the solver)",
-           "#![allow(unused_imports)]", "use crate::%s::*;" % prop.lower()]
+           "#![allow(unused_imports)]"]
+    lib = (KH / "src" / "lib.rs").read_text()
+    for m in re.finditer(r'#\[cfg\(all\(kani, feature = "prop_%s"\)\)\]\npub mod (\w+);' % prop.lower(), lib):
+        src.append("use crate::%s::*;" % m.group(1))
     for t in tests:
         src.append(t["src"])
     (KH / "src" / "playback.rs").write_text("\n".join(src) + "\n")
@@ -427,7 +433,7 @@ def setup():
     """Build the seed target dir (dependencies compiled by kani-compiler) from files on disk."""
     seed = TGT / "seed"
     seed.parent.mkdir(parents=True, exist_ok=True)
-    rc, out, to = sh("cargo kani --features prop_c04 --target-dir %s --only-codegen" % seed, timeout=3000)
+    rc, out, to = sh("cargo kani --features prop_c04 -Z stubbing --target-dir %s --only-codegen --harness c04a_typed_cropped_new" % seed, timeout=3000)
     log(out[-1500:])
     if rc != 0:
         return 1
